@@ -6,6 +6,8 @@ use explorer::serde_json::json;
 use explorer::strings;
 use explorer::{Acc, Ctx};
 use refmodel::picture::{case_unspecified, render, tokenize, Tok, Ty};
+#[allow(unused_imports)]
+use crate::probe::TV;
 use sqldatetime::{Error, Formatter};
 
 pub const PIC_ALPHABET: [&[u8]; 42] = [
@@ -138,12 +140,12 @@ pub fn run(ctx: &mut Ctx) {
     // bounded language over TOKENS: every sequence of up to 6 (thorough 7) tokens of a reduced alphabet,
     // concatenated without separators other than the punctuation tokens themselves (prefix / suffix
     // special cases of realistic pictures such as YYYY-MM-DD followed by another D live here)
-    let toks: [&str; 16] = ["YYYY", "YY", "MM", "MON", "DD", "DDD", "D", "DY", "HH24", "HH", "MI", "SS", "FF", "-", ":", " "];
+    let toks: [&str; 18] = ["YYYY", "YY", "MM", "MON", "DD", "DDD", "D", "DY", "HH24", "HH", "MI", "SS", "FF", "-", ":", " ", "T", "t"];
     let tl: u32 = if ctx.thorough() { 7 } else { 6 };
     let nk = toks.len() as u64;
     let nseq = explorer::strings::count_upto(nk, tl);
     ctx.bound("token_language", json!(format!("every sequence of 0..={tl} tokens over {toks:?}")));
-    let r = ctx.sweep("all_short_token_sequences", "every sequence of tokens up to the length bound over a 16-token alphabet (re-lexed by the reference tokenizer)", nseq, 1 << 14, |range, acc| {
+    let r = ctx.sweep("all_short_token_sequences", "every sequence of tokens up to the length bound over an 18-token alphabet (incl. the literal T and a lower-case t) (re-lexed by the reference tokenizer)", nseq, 1 << 14, |range, acc| {
         let mut sym = Vec::new();
         let mut buf: Vec<u8> = Vec::new();
         explorer::strings::decode(range.start, nk, tl, &mut sym);
@@ -156,5 +158,60 @@ pub fn run(ctx: &mut Ctx) {
         }
         acc.states += cnt;
     });
+    ctx.require(&r, &["accepted", "rejected"]);
+
+    // well-known pictures in every letter-case variant, through each type's OWN format entry point
+    let r = ctx.sweep_each("well_known_pictures_case_variants_type_entry_points", "about 40 pictures in common use x {as written, upper, lower, capitalised tokens, alternating case} through Formatter and through Date / Timestamp / OracleDate / Time ::format", WELL_KNOWN.len() as u64 * 5, 4, |idx, acc| {
+        let base = WELL_KNOWN[(idx / 5) as usize];
+        let pic = case_variant(base, (idx % 5) as u8);
+        acc.states += 1;
+        check_picture(acc, idx, pic.as_bytes(), probe, pf);
+        // the types' own entry points must agree with the Formatter
+        let toks = match tokenize(pic.as_bytes()) { Some(t) => t, None => return };
+        let loose = toks.iter().any(case_unspecified);
+        let n = world().cal.day_number(2021, 4, 22);
+        let raw = probe.raw;
+        let outs: Vec<(&str, Ty, Result<Option<String>, ()>)> = vec![
+            ("Timestamp::format", Ty::Timestamp, guard(|| sqldatetime::Timestamp::try_from_usecs(raw).unwrap().format(&pic).ok().and_then(|d| { let mut s = String::new(); std::fmt::Write::write_fmt(&mut s, format_args!("{}", d)).ok().map(|_| s) }))),
+            ("OracleDate::format", Ty::OracleDate, guard(|| sqldatetime::OracleDate::try_from_usecs(raw / US_SEC * US_SEC).unwrap().format(&pic).ok().and_then(|d| { let mut s = String::new(); std::fmt::Write::write_fmt(&mut s, format_args!("{}", d)).ok().map(|_| s) }))),
+            ("Date::format", Ty::Date, guard(|| sqldatetime::Date::try_from_days(n).unwrap().format(&pic).ok().and_then(|d| { let mut s = String::new(); std::fmt::Write::write_fmt(&mut s, format_args!("{}", d)).ok().map(|_| s) }))),
+            ("Time::format", Ty::Time, guard(|| sqldatetime::Time::try_from_usecs(raw.rem_euclid(US_DAY)).unwrap().format(&pic).ok().and_then(|d| { let mut s = String::new(); std::fmt::Write::write_fmt(&mut s, format_args!("{}", d)).ok().map(|_| s) }))),
+        ];
+        for (name, ty, got) in outs {
+            acc.t(1);
+            let tv = TV { ty, raw: match ty { Ty::Date => n as i64, Ty::Time => raw.rem_euclid(US_DAY), Ty::OracleDate => raw / US_SEC * US_SEC, _ => raw } };
+            let want = render(&toks, ty, &tv.fields());
+            let ok = match (&want, &got) { (Some(w), Ok(Some(g))) => if loose { g.eq_ignore_ascii_case(w) } else { g == w }, (None, Ok(None)) => true, _ => false };
+            if !ok {
+                acc.fail("C19:type-entry-point-renders-differently-from-the-token-sequence", idx, || (format!("{name}({pic:?}) for the probe value"), format!("{want:?}"), format!("{got:?}"), String::new()));
+            }
+        }
+    });
     ctx.require(&r, &["accepted"]);
+}
+
+/// Pictures in common use (Oracle / ISO / PostgreSQL documentation style).
+pub const WELL_KNOWN: [&str; 40] = [
+    "DD-MON-YYYY HH24:MI:SS", "DD-MON-YY HH.MI.SS.FF AM", "DD-MON-YY", "DD-MON-RR", "YYYY-MM-DD HH24:MI:SS", "YYYY-MM-DD HH24:MI:SS.FF", "YYYY-MM-DD HH24:MI:SS.FF6", "YYYY-MM-DDTHH24:MI:SS", "YYYY-MM-DD",
+    "YYYYMMDD", "YYYYMMDDHH24MISS", "MM/DD/YYYY", "DD/MM/YYYY", "DD.MM.YYYY", "DD.MM.YYYY HH24:MI", "MM/DD/YYYY HH:MI:SS AM", "Month DD, YYYY", "Mon DD, YYYY", "Day, DD Month YYYY", "Dy, DD Mon YYYY HH24:MI:SS",
+    "DY DD-MON-YYYY", "HH24:MI:SS", "HH24:MI", "HH:MI AM", "HH12:MI:SS PM", "HH.MI.SS.FF AM", "HH24:MI:SS.FF3", "YYYY-DDD", "YYYY-MM", "MON-YYYY", "MM-YYYY", "YY-MM-DD", "DD-MM-YY HH24:MI", "YYYY/MM/DD HH24:MI:SS",
+    "YYYY.MM.DD", "DD MON YYYY", "DDMONYYYY", "YYYY-MM-DD HH:MI:SS P.M.", "D DD DDD W WW", "DAY MONTH YYYY",
+];
+
+pub fn case_variant(p: &str, v: u8) -> String {
+    match v {
+        0 => p.to_string(),
+        1 => p.to_ascii_uppercase().replace("t", "T"),
+        2 => p.chars().map(|c| if c == 'T' { c } else { c.to_ascii_lowercase() }).collect(),
+        3 => {
+            // capitalise each alphabetic run
+            let mut out = String::new();
+            let mut start = true;
+            for c in p.chars() {
+                if c.is_ascii_alphabetic() { out.push(if start { c.to_ascii_uppercase() } else if c == 'T' { c } else { c.to_ascii_lowercase() }); start = false; } else { out.push(c); start = true; }
+            }
+            out
+        }
+        _ => p.chars().enumerate().map(|(i, c)| if c == 'T' { c } else if i % 2 == 0 { c.to_ascii_lowercase() } else { c.to_ascii_uppercase() }).collect(),
+    }
 }
